@@ -15,6 +15,7 @@ PID = 'C17'
 SOURCES = ['SoupVerif/Properties/C17.lean', 'SoupVerif/Lemmas/StateLawsShape.lean', 'SoupVerif/Lemmas/StateLawsSem.lean',
            'SoupVerif/Lemmas/StateLawsRel.lean', 'SoupVerif/Lemmas/StateLawsDir.lean', 'SoupVerif/Generated/Builtins.lean',
            'SoupVerif/Model/Match.lean']
+SOURCES += ['SoupVerif/Generated/PySmallFn.lean', 'SoupVerif/Model/SmallFnDyn.lean', 'SoupVerif/Properties/C17GenSmall.lean', 'SoupVerif/Properties/C17GenOwnDir.lean']   # match_defined / match_placeholder_shown / match_scope / match_own_dir translated from the source
 RULE = ('HTML documents made of arbitrarily nested forms, fieldsets with 0-2 legends (controls inside the first / second legend), '
         'radio groups inside / outside forms with name collisions, option/optgroup, every input type, disabled / readonly / '
         'required / placeholder / contenteditable / dir (incl. auto with LTR / RTL / neutral text, bdi, textarea, tel) and '
